@@ -59,8 +59,8 @@ def pDist : P DistType := do
   | "ends" => pure .ends
   | t => throw s!"dist? {t}"
 
-def showGaps (st : Strand) (gs : List Blk) : String :=
-  " ".intercalate (toString gs.length :: gs.map (fun g => s!"{strandSym st} {g.1} {g.2}"))
+def showGaps (gs : List (Strand × Blk)) : String :=
+  " ".intercalate (toString gs.length :: gs.map (fun g => s!"{strandSym g.1} {g.2.1} {g.2.2}"))
 
 def unary (f : PLoc → R PLoc) : Op := do
   let a ← pPLoc
@@ -88,9 +88,7 @@ def ops : List (String × Op) := [
       pure (showR showBool (do let x ← a; let y ← b; containsP x y ms fs st))),
   ("gaplist", do
       let a ← pPLoc
-      pure (match (do let x ← a; let gs ← gapList x.1; pure (x, gs) : R (PLoc × List Blk)) with
-            | .ok (x, gs) => "ok " ++ showGaps (match x.1 with | .single _ s => s | .compound l => l.strand | .empty => .plus) gs
-            | .error e => "err " ++ showErr e)),
+      pure (showR showGaps (do let x ← a; gapListP x))),
   ("gaps", unary gapsLocationP),
   ("optimize", unary optimizeBlocksP),
   ("optcombine", unary optimizeAndCombineP),
